@@ -19,9 +19,12 @@
 //!   block -> <answer for root>,<answer for r1>,…   (same alphabet)
 //!   nodes -> <path>,<path>,…   (`-` when empty)
 //!   run   -> res=<ok|err|panic|none> then the callback log in call order:
-//!            S:<path>:<stage>:<ns>                       at_sim_start(stage)
-//!            M:<path>:<ns>                               handle_message
-//!            E:<path>:<ns>:<len>:<name>:<parent>:<kids>  at_sim_end, with the lookups made inside it:
+//!            S:<path>:<stage>:<ns>:<L>     at_sim_start(stage)
+//!            M:<path>:<ns>:<L>             handle_message
+//!            E:<path>:<ns>:<L>             at_sim_end
+//!            D:<path>                      the module's state is dropped (after `run` returned and its result,
+//!                                          the `Sim`, is dropped)
+//!            <L> = <len>:<name>:<parent>:<kids> are the lookups made inside EVERY callback:
 //!                 path().len(), name(), parent() (`-` = NoEntry, `!` = other error) and
 //!                 child(n) for every n in the case's name pool (`n>childpath`, comma separated, `-` if none)
 //!   path  -> len=<n> name=<s> pstr=<s> par=<s|none> plen=<n> pname=<s> eqapp=<0|1>
@@ -52,24 +55,29 @@ fn untok(s: &str) -> &str {
 // ------------------------------------------------------------------------------------------ gen
 
 /// names: textual prefixes of each other, multi-byte UTF-8 (2, 3 and 4 byte characters)
-const NAMES: [&str; 24] = [
+const NAMES: [&str; 32] = [
     "alice", "alicent", "al", "a", "ali", "bob", "b", "bo", "ä", "äb", "日本", "日", "é", "x-1", "n0",
     "ñandú", "😀", "a😀b", "eve", "e", "ab", "aa", "alice2", "ß",
+    // brackets and other punctuation the API does not treat specially
+    "a[0]", "a[01]", "a[", "]", "(b)", "node[3]", "al[1]", "a{b}",
 ];
-const WEIRD: [&str; 12] = ["~", ".", "a.", ".a", "a..b", "a.b.", "..", "b.", "alice.", ".alice", "日.", "a...b"];
+const WEIRD: [&str; 18] = [
+    "~", ".", "a.", ".a", "a..b", "a.b.", "..", "b.", "alice.", ".alice", "日.", "a...b", "a[0].", "[.]", "a.[", "x..",
+    "a.b..c", "a[0]..]",
+];
 
 struct TNode {
     path: String,
     parent: Option<usize>,
 }
 
-fn gen_tree(r: &mut Rng, max_nodes: usize, max_depth: usize, max_fan: usize) -> Vec<TNode> {
+fn gen_tree(r: &mut Rng, max_nodes: usize, max_depth: usize, max_fan: usize, deep: bool) -> Vec<TNode> {
     // grow a random tree: repeatedly attach a child to a random existing node (or a new root)
     let mut nodes: Vec<TNode> = Vec::new();
     let mut depth: Vec<usize> = Vec::new();
     let mut fan: Vec<usize> = Vec::new();
     let mut roots = 0usize;
-    let shape = r.below(4); // 0 bushy, 1 deep, 2 mixed, 3 mixed
+    let shape = if deep { 1 } else { r.below(4) }; // 0 bushy, 1 deep, 2 mixed, 3 mixed
     let mut tries = 0;
     while nodes.len() < max_nodes && tries < 10 * max_nodes {
         tries += 1;
@@ -154,11 +162,13 @@ fn all_orders(t: &[TNode], cap: usize) -> Vec<Vec<usize>> {
 }
 
 fn emit_case(out: &mut String, r: &mut Rng, id: &str, t: &[TNode], order: &[usize], stages: &[u64], wakes: &[u64], noise: bool) {
+    // heavy noise: a rejected or probing line before almost every accepted one
+    let span = if r.chance(1, 4) { 8 } else { 14 };
     writeln!(out, "case {id} n={}", t.len()).unwrap();
     let mut emitted: Vec<usize> = Vec::new();
     for (k, &i) in order.iter().enumerate() {
         if noise {
-            match r.below(14) {
+            match r.below(span) {
                 0 if !emitted.is_empty() => {
                     // duplicate of an existing node
                     let j = *r.pick(&emitted);
@@ -225,7 +235,7 @@ pub fn gen(seed: u64, count: usize, thorough: bool) -> String {
         // thorough tier: every so often enumerate ALL linear extensions of a small tree
         if thorough && r.chance(1, 40) && count - k > 200 {
             let n = r.range(3, 7) as usize;
-            let t = gen_tree(&mut r, n, 4, 3);
+            let t = gen_tree(&mut r, n, 4, 3, false);
             let stages: Vec<u64> = t.iter().map(|_| r.below(4)).collect();
             let wakes: Vec<u64> = t.iter().map(|_| 0).collect();
             let orders = all_orders(&t, (count - k).min(5040));
@@ -240,7 +250,9 @@ pub fn gen(seed: u64, count: usize, thorough: bool) -> String {
             1..=5 => r.range(4, 10),
             _ => r.range(8, if thorough { 40 } else { 22 }),
         } as usize;
-        let t = gen_tree(&mut r, max_nodes, 5, 4);
+        // one case in five: a deep tree (depth up to 10, typically >= 6)
+        let deep = r.chance(1, 5);
+        let t = if deep { gen_tree(&mut r, max_nodes.max(8), 10, 3, true) } else { gen_tree(&mut r, max_nodes, 5, 4, false) };
         let order = random_order(&mut r, &t);
         let stage_mode = r.below(5);
         let stages: Vec<u64> = t
@@ -282,6 +294,35 @@ struct Scripted {
     wake: u64,
     log: Log,
     pool: Arc<Vec<String>>,
+    /// path seen in the last callback (for the drop record)
+    seen: Option<String>,
+}
+
+/// the lookups made inside every callback: `<len>:<name>:<parent>:<kids>`
+fn lookups(pool: &[String]) -> (String, String) {
+    let ctx = current();
+    let p = ctx.path();
+    let parent = match ctx.parent() {
+        Ok(m) => tok(m.path().as_str()),
+        Err(ModuleReferencingError::NoEntry(_)) => "-".to_string(),
+        Err(_) => "!".to_string(),
+    };
+    let mut kids: Vec<String> = Vec::new();
+    for n in pool.iter() {
+        if let Ok(c) = ctx.child(n) {
+            kids.push(format!("{}>{}", tok(n), tok(c.path().as_str())));
+        }
+    }
+    let kids = if kids.is_empty() { "-".to_string() } else { kids.join(",") };
+    (tok(p.as_str()), format!("{}:{}:{}:{}", p.len(), tok(&ctx.name()), parent, kids))
+}
+
+impl Drop for Scripted {
+    fn drop(&mut self) {
+        if let Some(p) = &self.seen {
+            self.log.lock().unwrap().push(format!("D:{p}"));
+        }
+    }
 }
 
 fn now_ns() -> u128 {
@@ -293,40 +334,22 @@ impl Module for Scripted {
         self.stages
     }
     fn at_sim_start(&mut self, stage: usize) {
-        let p = current().path();
-        self.log.lock().unwrap().push(format!("S:{}:{}:{}", tok(p.as_str()), stage, now_ns()));
+        let (p, l) = lookups(&self.pool);
+        self.log.lock().unwrap().push(format!("S:{}:{}:{}:{}", p, stage, now_ns(), l));
+        self.seen = Some(p);
         if self.wake > 0 {
             schedule_in(Message::default(), Duration::from_nanos(self.wake * (stage as u64 + 1)));
         }
     }
     fn handle_message(&mut self, _msg: Message) {
-        let p = current().path();
-        self.log.lock().unwrap().push(format!("M:{}:{}", tok(p.as_str()), now_ns()));
+        let (p, l) = lookups(&self.pool);
+        self.log.lock().unwrap().push(format!("M:{}:{}:{}", p, now_ns(), l));
+        self.seen = Some(p);
     }
     fn at_sim_end(&mut self) -> Result<(), RuntimeError> {
-        let ctx = current();
-        let p = ctx.path();
-        let parent = match ctx.parent() {
-            Ok(m) => tok(m.path().as_str()),
-            Err(ModuleReferencingError::NoEntry(_)) => "-".to_string(),
-            Err(_) => "!".to_string(),
-        };
-        let mut kids: Vec<String> = Vec::new();
-        for n in self.pool.iter() {
-            if let Ok(c) = ctx.child(n) {
-                kids.push(format!("{}>{}", tok(n), tok(c.path().as_str())));
-            }
-        }
-        let kids = if kids.is_empty() { "-".to_string() } else { kids.join(",") };
-        self.log.lock().unwrap().push(format!(
-            "E:{}:{}:{}:{}:{}:{}",
-            tok(p.as_str()),
-            now_ns(),
-            p.len(),
-            tok(&ctx.name()),
-            parent,
-            kids
-        ));
+        let (p, l) = lookups(&self.pool);
+        self.log.lock().unwrap().push(format!("E:{}:{}:{}", p, now_ns(), l));
+        self.seen = Some(p);
         Ok(())
     }
 }
@@ -351,7 +374,7 @@ struct Block {
 impl ModuleBlock for Block {
     type Ret = ();
     fn build<A>(self, mut sim: SimBuilderScoped<'_, A>) {
-        let mk = |b: &Block| Scripted { stages: b.stages, wake: 0, log: b.log.clone(), pool: b.pool.clone() };
+        let mk = |b: &Block| Scripted { stages: b.stages, wake: 0, log: b.log.clone(), pool: b.pool.clone(), seen: None };
         let m = mk(&self);
         let r = guarded(|| sim.root(m));
         self.answers.lock().unwrap().push(classify(r));
@@ -454,7 +477,7 @@ pub fn exec(input: &str) -> String {
                     match sim.as_mut() {
                         None => "late".to_string(),
                         Some(sim) => {
-                            let m = Scripted { stages, wake, log: log.clone(), pool: pool.clone() };
+                            let m = Scripted { stages, wake, log: log.clone(), pool: pool.clone(), seen: None };
                             let p = untok(path).to_string();
                             classify(guarded(|| sim.node(p.as_str(), m))).to_string()
                         }
@@ -498,8 +521,13 @@ pub fn exec(input: &str) -> String {
                         if std::env::var("HX_PANIC_MSG").is_err() {
                             std::panic::set_hook(Box::new(|_| {}));
                         }
+                        // the returned application (the `Sim` with its module tree) is dropped here:
+                        // the modules' states are dropped and record `D:<path>`
                         let res = match res {
-                            Ok(Ok(_)) => "ok",
+                            Ok(Ok(v)) => match guarded(move || drop(v)) {
+                                Ok(()) => "ok",
+                                Err(_) => "droppanic",
+                            },
                             Ok(Err(_)) => "err",
                             Err(_) => "panic",
                         };
